@@ -39,7 +39,7 @@ def param_sets(tier):
     for al in ((1, 0.5, -2, 3) if q else (1, 0.5, -2, 3, 0.1, -7.5)):
         out.append(('Sin', {'alpha': al})); out.append(('Cos', {'alpha': al}))
     for mu in ((0, 0.7, -1.3) if q else (0, 0.7, -1.3, 2.5)):
-        for var in ((1, 0.25, 2) if q else (1, 0.25, 2, 0.05)):
+        for var in ((1, 0.25, 2, 0.01, 0.001) if q else (1, 0.25, 2, 0.05, 0.01, 0.001)):          # narrow Gaussians: the standard deviation, not the variance, sets the length scale
             out.append(('Gauss', {'mean': mu, 'variance': var})); out.append(('PeriodicGauss', {'mean': mu, 'variance': var}))
     for deg in (1, 2, 3):
         for ki, knots in enumerate(([-2.0, -0.5, 0.3, 2.0], [-2.0, -1.0, 0.0, 0.8, 2.0])):
@@ -287,6 +287,23 @@ def run_case(case, seed):
                 one_sided = sgn * (-3 * f(q_) + 4 * f(q_ + e_) - f(q_ + 2 * e_)) / (2 * hh)
                 got = f.partial(q_, idx)
                 r.true(key + ':end-knot:partial', abs(got - one_sided) <= 1e-4 * max(1.0, abs(one_sided)), 'at the %s knot %g: partial %r, one-sided derivative of __call__ %r' % ('first' if sgn > 0 else 'last', xe, got, one_sided))
+    # B-splines in other units: the spline on the knots s*K with the same coefficients is x -> f(x/s); value and derivative follow
+    # by the chain rule (s = 1e-9: every knot spacing is tiny in absolute terms; s = 1e3)
+    if fam == 'Bspline':
+        import scikit_tt.data_driven.transform as tdt
+        par_ = case['par']
+        coeff_ = np.zeros(len(par_['knots']) - 1 + par_['degree']); coeff_[par_['unit']] = 1.0
+        for s_ in (1e-9, 1e3):
+            with r.op(key + ':rescaled-knots:call'):
+                g_ = tdt.Bspline(idx, s_ * np.array(par_['knots']), par_['degree'], coeff_.copy(), dimension=dim)
+                for p_ in pts:
+                    if not (par_['knots'][0] < p_[idx] < par_['knots'][-1]) or any(abs(p_[idx] - kn_) < 1e-3 for kn_ in par_['knots']):
+                        continue
+                    ps_ = np.array(p_, dtype=float); ps_[idx] = s_ * p_[idx]
+                    v0_, v1_ = float(f(p_)), float(g_(ps_))
+                    r.true(key + ':rescaled-knots:value', abs(v1_ - v0_) <= 1e-9 * max(1.0, abs(v0_)), 'knots x %g: value %r vs %r' % (s_, v1_, v0_))
+                    d0_, d1_ = float(f.partial(p_, idx)), float(g_.partial(ps_, idx)) * s_
+                    r.true(key + ':rescaled-knots:partial', abs(d1_ - d0_) <= 1e-7 * max(1.0, abs(d0_)), 'knots x %g: s * partial %r vs %r' % (s_, d1_, d0_))
     # the same function built with NumPy-scalar parameters
     if not no_d1 and fam != 'Bspline':
         with r.op(key + ':numpy-scalar-parameters:call'):
